@@ -1090,7 +1090,17 @@ func (c *StructConverter) To(obj Object) (interface{}, error) {
 						if err != nil {
 							return nil, err
 						}
-						f.Set(reflect.ValueOf(attrValue))
+						if attrValue == nil {
+							f.SetZero()
+							continue
+						}
+						rv := reflect.ValueOf(attrValue)
+						// The converter of a struct-valued field works with
+						// pointers to the struct: store the struct itself
+						if f.Kind() == reflect.Struct && rv.Kind() == reflect.Pointer && !rv.IsNil() {
+							rv = rv.Elem()
+						}
+						f.Set(rv)
 					}
 				}
 			}
